@@ -209,6 +209,11 @@ pub fn size_sweep(prop: u8) -> Vec<Case> {
                 let second = Target::Pos((65536usize * 2 / n.max(3) + 1).min(65535) as u16);
                 let ops: Vec<Vec<Op>> = match prop {
                     11 => vec![
+                        // lowered to the bottom region but not below everything: an element left one level
+                        // too high can then be extracted before a larger one
+                        vec![Op::PushDec { t: root, tag: 1, p: PrioSpec::Val(if pattern == 2 { 1 << 15 } else { (n / 16) as i64 }) }],
+                        vec![Op::PushDec { t: root, tag: 1, p: PrioSpec::Val(if pattern == 2 { 1 << 18 } else { (n / 3) as i64 }) }],
+                        vec![Op::PushDec { t: second, tag: 1, p: PrioSpec::Val(if pattern == 2 { 1 << 14 } else { (n / 24) as i64 }) }],
                         vec![Op::PushDec { t: root, tag: 1, p: PrioSpec::BelowMin(0) }],
                         vec![Op::PushDec { t: second, tag: 1, p: PrioSpec::BelowMin(0) }],
                         vec![Op::PushInc { t: deep, tag: 1, p: PrioSpec::AboveMax(0) }],
@@ -216,6 +221,7 @@ pub fn size_sweep(prop: u8) -> Vec<Case> {
                         vec![Op::PushInc { t: Target::Min, tag: 1, p: PrioSpec::EqMax }],
                     ],
                     _ => vec![
+                        vec![Op::Change { t: root, p: PrioSpec::Val(if pattern == 2 { 1 << 15 } else { (n / 16) as i64 }), by_ref: true }],
                         vec![Op::Change { t: root, p: PrioSpec::BelowMin(0), by_ref: true }],
                         vec![Op::Pop { end: End::Max }, Op::Pop { end: End::Min }],
                         vec![Op::Change { t: deep, p: PrioSpec::AboveMax(0), by_ref: true }],
